@@ -358,6 +358,8 @@ def longest_prefix(ctx, cfg):
             cb = any(f[0] == "bool" and f[2] is True and f[1][0] == "call" and (f[1][1] or "").endswith("is_char_boundary") for f in facts)
             if not cb:
                 bad.append(t)
+    # str::split_at_checked tests the boundary itself and yields both halves
+    n += 2 * sum(1 for b, t in fn.calls() if (t["callee"].get("def") or "").endswith("str::<impl str>::split_at_checked"))
     ctx.ob("longest-prefix", "char-boundary", n >= 2 and not bad,
            "both string slices are taken only after is_char_boundary(i) held" if n >= 2 and not bad else "a string slice (%d found) is not guarded by is_char_boundary" % n, where(fn, bad[0]) if bad else w, cfg)
     # unambiguity: no modifier starts with a character that occurs in a pattern name
